@@ -38,6 +38,7 @@ def _shrink_txt_props(op):
 
 shrinkers["txt-trip"] = _shrink_txt_props
 shrinkers["txt-get"] = _shrink_txt_props
+shrinkers["txt-getters"] = _shrink_txt_props
 
 
 def _mutate_hex_op(op, seed):
@@ -64,7 +65,7 @@ def _mutate_hex_op(op, seed):
         yield " ".join(toks[:i] + [t] + toks[i + 1:])
 
 
-for _k in ("txt-trip", "txt-decode", "txt-decode-unique", "txt-get"):
+for _k in ("txt-trip", "txt-decode", "txt-decode-unique", "txt-get", "txt-getters"):
     mutators[_k] = _mutate_hex_op
 
 
@@ -74,8 +75,8 @@ def _c16_nontrivial(r):
         return r["impl"].startswith("ok") and op[2] != "0"
     if op[0] in ("txt-decode", "txt-decode-unique"):
         return r["impl"].startswith("ok") and not r["impl"].startswith("ok 0")
-    if op[0] == "txt-get":
-        return r["impl"].startswith("some")
+    if op[0] in ("txt-get", "txt-getters"):
+        return r["impl"].startswith("some") or r["impl"].startswith("1")
     return False
 
 
